@@ -1,6 +1,20 @@
 """C12 — velocity limits bound spending in every time window, across restarts."""
 import lib
 
+MANIFEST = dict(
+    text="Coq theorem C12_window: for every policy spec with a finite limit and every history of approvals, "
+         "node-entry writes and restarts with non-decreasing times, the approved amounts in any window no longer "
+         "than (buckets-1)*interval sum to at most the limit (induction over the history with a per-bucket "
+         "accounting invariant; saturating adds modelled); C12_restart_keeps_counted: a restart restores exactly the "
+         "persisted control.  The model (insert, persist-on-approve, restore) is run against VelocityControl and "
+         "against Node::add_keysend / check_onchain_tx / restore_node on the same histories on every run, and a "
+         "sliding-window monitor checks the property itself on the implementation's answers.",
+    design="§4 C12",
+    note=lib.TB + "Modelled, not verified: serde round trip of the persisted control; clock monotonicity is the "
+         "property's hypothesis.",
+    technique="Coq proof (invariant by induction over histories) + vm_compute correspondence with the Rust implementation",
+)
+
 
 def run(res):
     quick = res.tier == "quick"
@@ -9,17 +23,18 @@ def run(res):
     cov = res.coverage
     n_bare = 400 if quick else 6000
     n_node = 150 if quick else 2500
-    bare = lib.run_harness("velocity-bare", res.seed, n_bare, res.tier)
-    node = lib.run_harness("velocity-node", res.seed, n_node, res.tier)
+    bare = lib.run_harness("velocity", "bare", res.seed, n_bare, res.tier)
+    node = lib.run_harness("velocity", "node", res.seed, n_node, res.tier)
     bcases, ncases = bare["CASE"], node["CASE"]
     imports = ["Model.VelocityCheck"]
     fb = lib.coq_failures(imports, "bare_case", "check_bare", [c["coq"] for c in bcases], "c12_bare")
-    fn = lib.coq_failures(imports, "node_case", "check_node", [c["coq"] for c in ncases], "c12_node")
+    nterms = [c["coq_pay"] for c in ncases] + [c["coq_fee"] for c in ncases]
+    fn = lib.coq_failures(imports, "node_case", "check_node", nterms, "c12_node")
     # the property itself, on the implementation's answers (sliding-window monitor in the harness)
-    mon = [c for c in ncases if c.get("monitor_violation")]
+    mon = [c for c in ncases if c.get("monitor_violation_pay") or c.get("monitor_violation_fee")]
     for c in mon[:3]:
         res.violation("approved amounts inside one window exceed the limit (implementation trace)",
-                      {"domain": "velocity-node", "seed": res.seed, "case": {k: v for k, v in c.items() if k != "coq"}})
+                      {"domain": "velocity-node", "seed": res.seed, "case": {k: v for k, v in c.items() if not k.startswith("coq")}})
     if not mon:
         for i in fb[:2]:
             c = bcases[i]
@@ -28,8 +43,8 @@ def run(res):
                           {"correspondence": "velocity-bare", "case": {k: v for k, v in c.items()}, "model": model},
                           has_input=False)
         for i in fn[:2]:
-            c = ncases[i]
-            model = lib.coq_eval(imports, "node_model (%s)" % c["coq"], "c12_show")
+            c = ncases[i % len(ncases)]
+            model = lib.coq_eval(imports, "node_model (%s)" % nterms[i], "c12_show")
             res.violation("node-level approve/restart history disagrees with Model.Velocity.vstep (correspondence velocity-node)",
                           {"correspondence": "velocity-node", "theorem": "C12_window", "case": c, "model": model},
                           has_input=False)
@@ -42,17 +57,17 @@ def run(res):
     for c in ncases:
         flat = [o for o in c["ops"] if o != "restart"]
         if "restart" in c["ops"] and any(o[3] for o in flat) and any(not o[3] for o in flat):
-            nontrivial.add(c["coq"])
+            nontrivial.add(c["coq_pay"] + c["coq_fee"])
     cov.update({
         "evaluations": len(allc),
         "distinct_nontrivial": len(nontrivial),
         "rule": "bare: random (buckets, interval, limit) x <=14 inserts with gaps at 0, interval-1, interval, "
                 "(nb-1)*interval, nb*interval(+1) and amounts at 0, 1, limit/2(+1), limit, limit+1, 2^64-2, 2^64-1; "
-                "node: add_keysend under a ManualClock with restarts from the store in between; a case is "
+                "node: add_keysend (payment control) and check_onchain_tx (fee control) under a ManualClock with restarts from the store in between, projected per control; a case is "
                 "non-trivial when it has both an approved and a refused insert (node: and a restart); "
                 "distinct by full operation list",
         "samples": [{k: v for k, v in bcases[0].items() if k != "coq"},
-                    {k: v for k, v in ncases[0].items() if k != "coq"}],
+                    {k: v for k, v in ncases[0].items() if not k.startswith("coq")}],
         "traces_validated_against_impl": len(allc),
         "correspondence_disagreements": len(fb) + len(fn),
         "monitor_failures": len(mon),
